@@ -337,7 +337,22 @@ pub fn run_blocks(job: &Value, t: &mut Trace) -> usize {
                 }
                 ev["written_len"] = json!(out.len() as i64);
                 match catch(|| read_blocks(Cursor::new(&out[..])).collect::<Result<Vec<Block>, _>>()) {
-                    Ok(Ok(back)) => ev["readback_same"] = json!(back == built),
+                    Ok(Ok(back)) => {
+                        // the same bytes through sources that deliver less than asked for (a BufReader does so whenever a request
+                        // straddles its buffer; pipes and sockets at will): the block list read must not depend on it
+                        let mut same = back == built;
+                        if out.len() <= 200_000 {
+                            for chunks in [vec![1500usize], vec![7], vec![3, 1, 64], vec![8192, 1]] {
+                                let r = catch(|| read_blocks(crate::io::ChunkedReader::new(out.clone(), chunks.clone(), vec![])).collect::<Result<Vec<Block>, _>>());
+                                same = same && matches!(r, Ok(Ok(b)) if b == built);
+                            }
+                            for cap in [16usize, 100, 4096] {
+                                let r = catch(|| read_blocks(std::io::BufReader::with_capacity(cap, Cursor::new(&out[..]))).collect::<Result<Vec<Block>, _>>());
+                                same = same && matches!(r, Ok(Ok(b)) if b == built);
+                            }
+                        }
+                        ev["readback_same"] = json!(same);
+                    }
                     Ok(Err(e)) => ev["readback_err"] = json!(e.to_string()),
                     Err(p) => ev["readback_err"] = json!(format!("panic: {} @{}", p.msg, p.loc)),
                 }
